@@ -63,12 +63,31 @@ def build_source(spec, pose=True):
     with warnings.catch_warnings():
         warnings.simplefilter("ignore")
         if cls == "CustomSource":
-            obj = magpy.misc.CustomSource(field_func=spec.get("field_func"))
+            obj = magpy.misc.CustomSource(field_func=custom_func(spec.get("func")))
         else:
             obj = CLASSES[cls](**kw)
     if pose:
         apply_pose(obj, spec)
     return obj
+
+
+def custom_func(par):
+    """Deterministic custom field function from its parameters (None -> no function)."""
+    if par is None:
+        return None
+    A = np.asarray(par["A"], dtype=float)
+    b = np.asarray(par["b"], dtype=float)
+    mu0 = magpy.mu_0
+
+    def field_func(field, observers):
+        obs = np.asarray(observers, dtype=float)
+        if field == "B":
+            return obs @ A.T + b
+        if field == "H":
+            return (obs @ A.T + b) / mu0
+        return np.zeros_like(obs)
+
+    return field_func
 
 
 def build_sensor(spec, pose=True):
